@@ -516,6 +516,7 @@ pub fn scn_alloc(out: &mut TraceOut, r: &mut R, idx: u64, heavy: bool) {
         }
     }
     cfg.hook = Some((t, init));
+    let fail_growth = idx % 5 == 4;
     let n = r.gen_range(5..if heavy { 400 } else { 120 });
     let plan: Vec<u8> = (0..n).map(|_| r.gen_range(0..100u8)).collect();
     let keys: Vec<Vec<u8>> = vec![vec![], vec![1], vec![2, 2], vec![3; 9], long_key(7)];
@@ -548,8 +549,17 @@ pub fn scn_alloc(out: &mut TraceOut, r: &mut R, idx: u64, heavy: bool) {
                     90..=94 => 2 * cap + 17,
                     _ => (t / 4).saturating_sub(16 + k.len()),
                 };
+                let failing_step = fail_growth && i == plan.len() * 2 / 3;
+                let vlen = if failing_step { cap + 3 } else { vlen };
                 let v = vec![0x5Au8; vlen.min(70_000)];
-                sorter.insert(&k, &v).map_err(|e| e.to_string())?;
+                // every so often the allocator refuses the next doubling of the buffer: the sorter
+                // must fail cleanly (a panic), and what it frees while unwinding is checked too
+                if failing_step {
+                    alloc::FAIL_EXACT.store(((2 * cap + 15) / 16 * 16) as u64, std::sync::atomic::Ordering::Relaxed);
+                }
+                let r = sorter.insert(&k, &v);
+                alloc::FAIL_EXACT.store(0, std::sync::atomic::Ordering::Relaxed);
+                r.map_err(|e| e.to_string())?;
                 let (cap, elen, nb, chunks) = sorter.verif_accounting();
                 if round == 0 {
                     events.push(json!({"ev": "Acct", "cap": cap, "elen": elen, "nb": nb, "chunks": chunks, "size": k.len() + v.len()}));
@@ -580,7 +590,7 @@ pub fn scn_alloc(out: &mut TraceOut, r: &mut R, idx: u64, heavy: bool) {
     let end = alloc::snapshot();
     let overflow = last_res.contains("overflow");
     out.ev(json!({"ev": "ARun", "res": if last_res.starts_with("panic") { "panic" } else if last_res == "ok" { "ok" } else { "err" },
-                  "overflow": overflow, "detail": last_res}));
+                  "overflow": overflow, "detail": last_res, "alloc_failures_injected": alloc::FAILED.load(std::sync::atomic::Ordering::Relaxed)}));
     let (ma, mf) = alloc::first_mismatch();
     out.ev(json!({"ev": "AllocSummary", "allocs": end.allocs - before_all.allocs,
                   "mismatch": end.mismatch - before_all.mismatch, "guard": end.guard - before_all.guard,
